@@ -18,6 +18,27 @@ MAX_OBJS = 40  # no further copies once a history has this many objects
 JUNK_BASE = 900  # ids from here on are not objects: entries of a foreign type in an argument list
 
 
+class _Hang(Exception):
+    pass
+
+
+def _limited(fn, seconds, what):
+    """run fn() under a wall limit: tree operations and the *_all views take milliseconds; on a tree that has become cyclic the
+    real code (and any walk over it) never returns — that is a failing input, not something to wait for"""
+    import signal
+
+    def _alarm(signum, frame):
+        raise TimeoutError(f"the real code did not return within {seconds} s while running {what} (a cyclic collection tree makes the *_all views and every tree walk endless)")
+
+    old = signal.signal(signal.SIGALRM, _alarm)
+    signal.setitimer(signal.ITIMER_REAL, seconds)
+    try:
+        return fn()
+    finally:
+        signal.setitimer(signal.ITIMER_REAL, 0)
+        signal.signal(signal.SIGALRM, old)
+
+
 def arg(objs, i):
     """the object with number `i`, or an entry that is no magpylib object"""
     return objs[i] if i < len(objs) else [3, None, 2.5, 7][(i - JUNK_BASE) % 4]
@@ -433,7 +454,7 @@ def run_stream(ctx, n_hist, n_ops, want_model=True, p_copy=0.08):
     seen = set()
     samples, inv_failures = [], []
     hists = [{"kinds": gen_kinds(ctx.rng), "ops": None} for _ in range(n_hist)]
-    reals = [real_lines(h, ctx.rng, n_ops, p_copy) for h in hists]
+    reals = [_limited(lambda h=h: real_lines(h, ctx.rng, n_ops, p_copy), 20, "one history of tree operations") for h in hists]
     all_lines, spans = [], []
     for h in hists:
         ls = model_lines(h)
@@ -1160,7 +1181,7 @@ def run_attr_stream(ctx, n_hist, n_ops, want_model=True):
     for _ in range(n_hist):
         kinds = gen_kinds(ctx.rng)
         hists.append({"specs": [gen_spec(ctx.rng, k) for k in kinds], "ops": None})
-    reals = [attr_real_lines(h, ctx.rng, n_ops) for h in hists]
+    reals = [_limited(lambda h=h: attr_real_lines(h, ctx.rng, n_ops), 30, "one history of tree / attribute operations") for h in hists]
     all_lines, spans = [], []
     for h in hists:
         ls = attr_model_lines(h)
